@@ -38,6 +38,13 @@ import PS.Proofs.TtcfgMul
 import PS.Proofs.TtcfgClean
 import PS.Proofs.TtcfgCountC
 import PS.Proofs.TtcfgSat
+import PS.Proofs.TtcfgBuild
+import PS.Proofs.TtcfgCleanLang
+import PS.Proofs.TtcfgBuildTerm
+import PS.Proofs.TtcfgCountS
+import PS.Proofs.TtcfgNoRepair
+import PS.Proofs.TtcfgCleanFirst
+import PS.Proofs.TtcfgBuildExact
 namespace PS.T
 open PS PS.G
 
@@ -443,5 +450,428 @@ theorem finding_C13_F7 :
     Sized arith int 5 bad = false ∧
     onTable (sizeConstraint arith int 5 1 false false 1000) (fun G => PS.G.contains G bad) = true ∧
     onTable (sizeConstraint arith int 5 2 false false 1000) (fun G => !(PS.G.contains G bad)) = true := by decide +kernel
+
+/-! ## THE CONSTRUCTION ITSELF: the worklist closes, `clean()` keeps the language
+     (no per-case certificate: these replace the hypothesis `subOK` of the `_partial` theorems
+     for the code as it is now - work list keyed by rule and pending stack, 6d9766e) -/
+
+/-- **the worklist of `__saturation_build__` closes**: when the loop ends there is a set of
+    (non-terminal, pending stack) pairs that contains the start configuration, is closed under
+    every rule the rule creation gives any of its non-terminals (the next non-terminal, taken from
+    the arguments and the pending stack, with the new state, is in the set again), and all its
+    non-terminals have a row in the table returned - for every builder, DSL, request and fuel. -/
+theorem C13_saturation_closed {S T : Type} [DecidableEq S] [DecidableEq T] (B : Builder S T) (prims : List Sym)
+    (request : Ty) (fuel : Nat) (G : TT S T) (h : saturationTable B prims request true fuel = some G) :
+    ∃ seen : List (NT S T × List (Ty × S)), ((request.returns, B.init), []) ∈ seen ∧
+      (∀ (rule : NT S T) (stack : List (Ty × S)), (rule, stack) ∈ seen →
+        ∀ (P : Sym) (args : List (Ty × S)) (st : T), rowsFn (rowDict B prims request) rule P = some (args, st) →
+          ∀ (x : Ty × S) (rest : List (Ty × S)), args ++ stack = x :: rest → ((x.1, (x.2, st)), rest) ∈ seen) ∧
+      ∀ x ∈ seen, AList.contains x.1 G.rules = true :=
+  saturation_closed B prims request fuel G h
+
+/-- **`__saturation_build__` is complete**: the table it returns (before `clean`) contains
+    exactly the programs the rule creation derives from the start symbol - every builder, DSL,
+    request, fuel, program. -/
+theorem C13_saturation_complete {S T : Type} [DecidableEq S] [DecidableEq T] (B : Builder S T) (dsl : Dsl)
+    (request : Ty) (fuel : Nat) (G : TT S T) (h : saturationTable B dsl.prims request true fuel = some G) (t : Prog) :
+    PS.G.contains G t = (run (idealFn B dsl request) t (request.returns, B.init.1) B.init.2).isSome := by
+  rw [C13_contains_run]
+  exact saturation_lang B dsl request fuel G h t
+
+open Ex in
+/-- non-vacuity: the worklist of `size_constraint` over the DSL of finding C13-F2 ends, and its
+    table contains both 4-node programs -/
+example : (match saturationTable (sizeBuilder sib 2 4 true) sib.prims c true 1000 with
+    | some G => PS.G.contains G fhxy && PS.G.contains G ghxz
+    | none => false) = true := by decide +kernel
+
+/-- **`clean()` preserves the language**: every table none of whose non-terminals has the
+    end-marker type `UnknownType`, every fuel, every program.
+    (Without the hypothesis the statement is false: `finding_C13_clean_unknown`.) -/
+theorem C13_clean_lang {S T : Type} [DecidableEq S] [DecidableEq T] (G G' : TT S T) (hU : noUnknownKey G = true)
+    (fuel : Nat) (h : clean G fuel = .ok G') (t : Prog) : PS.G.contains G' t = PS.G.contains G t := by
+  rw [C13_contains_run, C13_contains_run]
+  exact clean_lang G G' hU fuel h t
+
+/-- … and so does `clean()` with the test for a missing start symbol in front (8ba7791) -/
+theorem C13_cleanFixed_lang {S T : Type} [DecidableEq S] [DecidableEq T] (G G' : TT S T) (hU : noUnknownKey G = true)
+    (fuel : Nat) (h : cleanFixed G fuel = .ok G') (t : Prog) : PS.G.contains G' t = PS.G.contains G t := by
+  rw [C13_contains_run, C13_contains_run]
+  exact cleanFixed_lang G G' hU fuel h t
+
+namespace Ex
+/-- a table with a non-terminal of the end-marker type: `S0 → x` (a leaf, ending in state 1) and
+    an empty row for `(UnknownType, ("s", 1))` -/
+def unk : TT String Nat := ⟨(int, ("s", 0)), [((int, ("s", 0)), [(xa, ([], 1))]), ((Ty.unknown, ("s", 1)), [])]⟩
+end Ex
+
+open Ex in
+/-- **why the hypothesis**: on a table with a non-terminal of type `UnknownType`, `clean()` takes
+    the end of the derivation of `x` for a deleted first argument and removes the only program. -/
+theorem finding_C13_clean_unknown :
+    noUnknownKey unk = false ∧ PS.G.contains unk (leaf xa) = true ∧
+    (match clean unk 100 with
+     | .ok G' => !(PS.G.contains G' (leaf xa)) && G'.rules.isEmpty
+     | _ => false) = true := by decide +kernel
+
+/-- **size-bounded grammars, the construction itself**: the grammar returned by the model of
+    `TTCFG.size_constraint` (saturation, then clean) contains exactly the well-typed programs with
+    at most `k` nodes and no forbidden pattern seen through the n-gram.  Hypotheses: the DSL is a
+    list of primitives without `UnknownType` arguments; `actual ∨ firstOrder` (C13-F3; the code as
+    it is now has `actual = true`). -/
+theorem C13_size_vis (dsl : Dsl) (hwf : wfDsl dsl = true) (request : Ty) (hU : noUnknownDsl dsl request = true)
+    (k : Nat) (nG : Int) (actual : Bool) (hyp : actual = true ∨ firstOrder dsl = true) (fuel : Nat)
+    (g : TTG Ctx (Nat × Nat)) (h : sizeConstraint dsl request k nG actual true fuel = .ok g) (t : Prog) :
+    PS.G.contains g.G t = SizedVis dsl request nG k t := by
+  unfold sizeConstraint at h
+  cases h0 : saturationTable (sizeBuilder dsl nG k actual) dsl.prims request true fuel with
+  | none => simp [h0] at h
+  | some G0 =>
+    simp only [h0] at h
+    cases h1 : clean G0 fuel with
+    | ok G =>
+      simp only [h1, Res.ok.injEq] at h
+      subst h
+      rw [C13_clean_lang G0 G (saturation_noUnknown _ dsl request true fuel G0 hU h0) fuel h1 t,
+        C13_saturation_complete _ dsl request fuel G0 h0 t]
+      exact size_ideal_lang dsl hwf request nG k actual hyp t
+    | fuel => simp [h1] at h
+    | keyError => simp [h1] at h
+
+/-- **size-bounded grammars** (the code as it is now; n-gram of width ≥ 2 or unbounded, C13-F7):
+    `program in TTCFG.size_constraint(dsl, request, k, n)` ↔ the program is well typed, has at most
+    `k` nodes and no forbidden pattern. -/
+theorem C13_size (dsl : Dsl) (hwf : wfDsl dsl = true) (request : Ty) (hU : noUnknownDsl dsl request = true)
+    (k : Nat) (nG : Int) (hn : nG ≥ 2 ∨ nG < 0) (fuel : Nat)
+    (g : TTG Ctx (Nat × Nat)) (h : sizeConstraint dsl request k nG true true fuel = .ok g) (t : Prog) :
+    PS.G.contains g.G t = Sized dsl request k t := by
+  rw [C13_size_vis dsl hwf request hU k nG true (Or.inl rfl) fuel g h t, (C13_vis_statement dsl request nG hn k "" t).1]
+
+/-- **occurrence-bounded grammars, the construction itself** (whenever the construction ends:
+    finite language or not) -/
+theorem C13_atmost_vis (dsl : Dsl) (hwf : wfDsl dsl = true) (request : Ty) (hU : noUnknownDsl dsl request = true)
+    (name : String) (k : Nat) (nG : Int) (fuel : Nat)
+    (g : TTG Ctx Nat) (h : atMostK dsl request name k nG true fuel = .ok g) (t : Prog) :
+    PS.G.contains g.G t = AtMostOccVis dsl request nG name k t := by
+  unfold atMostK at h
+  cases h0 : saturationTable (atMostBuilder dsl nG name k) dsl.prims request true fuel with
+  | none => simp [h0] at h
+  | some G0 =>
+    simp only [h0] at h
+    cases h1 : clean G0 fuel with
+    | ok G =>
+      simp only [h1, Res.ok.injEq] at h
+      subst h
+      rw [C13_clean_lang G0 G (saturation_noUnknown _ dsl request true fuel G0 hU h0) fuel h1 t,
+        C13_saturation_complete _ dsl request fuel G0 h0 t]
+      exact atMost_ideal_lang dsl hwf request nG name k t
+    | fuel => simp [h1] at h
+    | keyError => simp [h1] at h
+
+theorem C13_atmost (dsl : Dsl) (hwf : wfDsl dsl = true) (request : Ty) (hU : noUnknownDsl dsl request = true)
+    (name : String) (k : Nat) (nG : Int) (hn : nG ≥ 2 ∨ nG < 0) (fuel : Nat)
+    (g : TTG Ctx Nat) (h : atMostK dsl request name k nG true fuel = .ok g) (t : Prog) :
+    PS.G.contains g.G t = AtMostOcc dsl request name k t := by
+  rw [C13_atmost_vis dsl hwf request hU name k nG fuel g h t, (C13_vis_statement dsl request nG hn k name t).2]
+
+open Ex in
+/-- non-vacuity: the hypotheses hold and the constructors return - `size_constraint` on the
+    arithmetic DSL with a forbidden pattern (request int → int, 5 nodes), `at_most_k` (at most one
+    `x0`) on the DSL of finding C13-F2 -/
+example : wfDsl arith = true ∧ noUnknownDsl arith (fn [int] int) = true ∧
+    onTable (sizeConstraint arith (fn [int] int) 5 2 true true 10000) (fun G =>
+      PS.G.contains G good && !(PS.G.contains G bad)) = true ∧
+    onTable (atMostK sib c "x0" 1 2 true 1000) (fun G => PS.G.contains G fhxy) = true := by decide +kernel
+
+/-! ### products -/
+
+/-- **`g1 * g2` (table of `__mul_ttcfg__`, then `clean`) contains exactly the programs common to
+    both factors** - for all pairs of grammars that give a symbol the same argument types at
+    non-terminals of the same type, have the same start type, and no end-marker non-terminal in
+    the left factor; every fuel for which `clean` returns. -/
+theorem C13_product_clean {S T U V : Type} [DecidableEq S] [DecidableEq T] [DecidableEq U] [DecidableEq V]
+    (G1 : TT S T) (G2 : TT U V) (hag : ArgsAgree G1 G2) (hty : G1.start.1 = G2.start.1)
+    (hU : noUnknownKey G1 = true) (fuel : Nat) (G : TT (S × U) (T × V)) (h : mul G1 G2 fuel = .ok G) (t : Prog) :
+    PS.G.contains G t = (PS.G.contains G1 t && PS.G.contains G2 t) := by
+  rw [C13_clean_lang (mulRaw G1 G2) G (mulRaw_noUnknown G1 G2 hU) fuel h t]
+  exact C13_product G1 G2 hag hty t
+
+/-- … and with `clean()` as it is now (empty product = empty table instead of KeyError) -/
+theorem C13_product_cleanFixed {S T U V : Type} [DecidableEq S] [DecidableEq T] [DecidableEq U] [DecidableEq V]
+    (G1 : TT S T) (G2 : TT U V) (hag : ArgsAgree G1 G2) (hty : G1.start.1 = G2.start.1)
+    (hU : noUnknownKey G1 = true) (fuel : Nat) (G : TT (S × U) (T × V))
+    (h : cleanFixed (mulRaw G1 G2) fuel = .ok G) (t : Prog) :
+    PS.G.contains G t = (PS.G.contains G1 t && PS.G.contains G2 t) := by
+  rw [C13_cleanFixed_lang (mulRaw G1 G2) G (mulRaw_noUnknown G1 G2 hU) fuel h t]
+  exact C13_product G1 G2 hag hty t
+
+open Ex in
+/-- non-vacuity: size ≤ 3 times size ≤ 1 over {+, 1}: the cleaned product exists, the factors are
+    typed, contain no end-marker, and it contains `1` only -/
+example : (match tableOf (sizeConstraint small int 3 2 true true 100), tableOf (sizeConstraint small int 1 2 true true 100) with
+    | some G1, some G2 =>
+      typedOK G1 && typedOK G2 && noUnknownKey G1 &&
+      (match mul G1 G2 100 with
+       | .ok G => PS.G.contains G (leaf one) && !(PS.G.contains G (.node plus [leaf one, leaf one]))
+       | _ => false)
+    | _, _ => false) = true := by decide +kernel
+
+/-! ### termination of the worklist (fuel adequacy) -/
+
+/-- **`__saturation_build__` terminates** for every builder whose rules strictly decrease a rank
+    of the configuration (non-terminal, pending stack): with either de-duplication the loop ends
+    within `satBound b (rk start)` iterations, where `b` = number of variables of the request +
+    number of primitives and `satBound b n = 1 + b + … + bⁿ`; and **more fuel does not change the
+    table**. -/
+theorem C13_saturation_terminates {S T : Type} [DecidableEq S] [DecidableEq T] (B : Builder S T) (prims : List Sym)
+    (request : Ty) (stackKey : Bool) (rk : NT S T × List (Ty × S) → Nat)
+    (hdec : ∀ (rule : NT S T) (stack : List (Ty × S)), ∀ p ∈ pushesOf B prims request rule stack,
+      rk (entryKey p) < rk (rule, stack)) :
+    (∀ fuel, satBound (request.arguments.length + prims.length) (rk ((request.returns, B.init), [])) ≤ fuel →
+      (saturationTable B prims request stackKey fuel).isSome = true) ∧
+    (∀ fuel extra G, saturationTable B prims request stackKey fuel = some G →
+      saturationTable B prims request stackKey (fuel + extra) = some G) :=
+  ⟨fun fuel hf => saturationTable_terminates B prims request stackKey rk hdec fuel hf,
+   fun fuel extra G h => saturationTable_mono B prims request stackKey fuel extra G h⟩
+
+/-- **the worklist of `size_constraint` always ends**: every rule created has `size ≤ max_size` and
+    moves to `size + 1`, so `max_size + 1 - size` is a rank - every DSL, request, bound, n-gram. -/
+theorem C13_saturation_terminates_size (dsl : Dsl) (request : Ty) (nG : Int) (maxSize : Nat) (actual stackKey : Bool)
+    (fuel : Nat) (hf : satBound (request.arguments.length + dsl.prims.length) (maxSize + 1) ≤ fuel) :
+    (saturationTable (sizeBuilder dsl nG maxSize actual) dsl.prims request stackKey fuel).isSome = true :=
+  size_saturation_terminates dsl request nG maxSize actual stackKey fuel hf
+
+/-- **the worklist of `at_most_k` ends when every primitive that takes an argument is the counted
+    one** (`spendAll`, decidable): rank `occ_left · (A + 1) + |pending stack|`, `A` = total declared
+    arity.  Full statement (false: with a binary primitive that is not counted the pending stack
+    grows for ever - the language is infinite, or finite with an unproductive recursion, see the
+    assumptions in harness/meta/C13.json): the same without `hsp`. -/
+theorem C13_saturation_terminates_atmost_partial (dsl : Dsl) (request : Ty) (nG : Int) (name : String) (k : Nat)
+    (hsp : spendAll dsl name = true) (stackKey : Bool) (fuel : Nat)
+    (hf : satBound (request.arguments.length + dsl.prims.length) (k * (totalArity dsl + 1)) ≤ fuel) :
+    (saturationTable (atMostBuilder dsl nG name k) dsl.prims request stackKey fuel).isSome = true :=
+  atMost_saturation_terminates dsl request nG name k hsp stackKey fuel hf
+
+open Ex in
+/-- non-vacuity: {+, 1} / int / 3 nodes: the bound is 1 + 2 + 4 + 8 + 16 = 31 and the table exists
+    at that fuel; `spendAll` holds for the counted primitive `+` -/
+example : satBound (int.arguments.length + small.prims.length) (3 + 1) = 31 ∧
+    (saturationTable (sizeBuilder small 2 3 true) small.prims int true 31).isSome = true ∧
+    spendAll small "+" = true ∧
+    (saturationTable (atMostBuilder small 2 "+" 1) small.prims int true
+      (satBound (int.arguments.length + small.prims.length) (1 * (totalArity small + 1)))).isSome = true := by
+  decide +kernel
+
+/-! ### `programs()` -/
+
+/-- **`programs()` with the proposed repair C13-F5 is the size of the language - of EVERY table**
+    whose rows are dicts and that uses the end-marker type `UnknownType` neither as a non-terminal
+    nor as an argument slot (three decidable hypotheses; no certificate, no closedness, cleaned
+    or not): whenever it returns `n`, the programs of the grammar are listed once each by `langOf`
+    and there are `n` of them.  (The code as it is: `C13_count_partial`, `finding_C13_F5`.) -/
+theorem C13_programs {S T : Type} [DecidableEq S] [DecidableEq T] (G : TT S T) (hr : rowsNodup G = true)
+    (hU : noUnknownKey G = true) (hA : noUnknownArg G = true) (fuel n : Nat) (hp : programsR G fuel = some n) :
+    ∃ L : List Prog, L.Nodup ∧ n = L.length ∧ ∀ t, t ∈ L ↔ PS.G.contains G t = true := by
+  obtain ⟨h1, h2, h3⟩ := programsR_count G hr hU hA fuel n hp
+  exact ⟨langOf G fuel, h1, h2, fun t => by rw [h3 t, C13_contains_run]⟩
+
+/-- **the reported number of programs of a size-bounded grammar** (construction as it is now,
+    `programs()` as repaired): `n` = the number of well-typed programs with at most `k` nodes and
+    no forbidden pattern. -/
+theorem C13_count_size (dsl : Dsl) (hwf : wfDsl dsl = true) (request : Ty) (hU : noUnknownDsl dsl request = true)
+    (k : Nat) (nG : Int) (hn : nG ≥ 2 ∨ nG < 0) (fuel : Nat) (g : TTG Ctx (Nat × Nat))
+    (h : sizeConstraint dsl request k nG true true fuel = .ok g) (fuel' n : Nat) (hp : programsR g.G fuel' = some n) :
+    ∃ L : List Prog, L.Nodup ∧ n = L.length ∧ ∀ t, t ∈ L ↔ Sized dsl request k t = true := by
+  have hlang := C13_size dsl hwf request hU k nG hn fuel g h
+  unfold sizeConstraint at h
+  cases h0 : saturationTable (sizeBuilder dsl nG k true) dsl.prims request true fuel with
+  | none => simp [h0] at h
+  | some G0 =>
+    simp only [h0] at h
+    cases h1 : clean G0 fuel with
+    | ok G =>
+      simp only [h1, Res.ok.injEq] at h
+      subst h
+      obtain ⟨_, s2, s3⟩ := saturation_countHyps _ dsl request true fuel G0 hU h0
+      obtain ⟨c1, c2, c3⟩ := clean_countHyps G0 G s2 s3 fuel h1
+      obtain ⟨L, l1, l2, l3⟩ := C13_programs G c1 c2 c3 fuel' n hp
+      exact ⟨L, l1, l2, fun t => by rw [l3 t, hlang t]⟩
+    | fuel => simp [h1] at h
+    | keyError => simp [h1] at h
+
+/-- … and of an occurrence-bounded grammar -/
+theorem C13_count_atmost (dsl : Dsl) (hwf : wfDsl dsl = true) (request : Ty) (hU : noUnknownDsl dsl request = true)
+    (name : String) (k : Nat) (nG : Int) (hn : nG ≥ 2 ∨ nG < 0) (fuel : Nat) (g : TTG Ctx Nat)
+    (h : atMostK dsl request name k nG true fuel = .ok g) (fuel' n : Nat) (hp : programsR g.G fuel' = some n) :
+    ∃ L : List Prog, L.Nodup ∧ n = L.length ∧ ∀ t, t ∈ L ↔ AtMostOcc dsl request name k t = true := by
+  have hlang := C13_atmost dsl hwf request hU name k nG hn fuel g h
+  unfold atMostK at h
+  cases h0 : saturationTable (atMostBuilder dsl nG name k) dsl.prims request true fuel with
+  | none => simp [h0] at h
+  | some G0 =>
+    simp only [h0] at h
+    cases h1 : clean G0 fuel with
+    | ok G =>
+      simp only [h1, Res.ok.injEq] at h
+      subst h
+      obtain ⟨_, s2, s3⟩ := saturation_countHyps _ dsl request true fuel G0 hU h0
+      obtain ⟨c1, c2, c3⟩ := clean_countHyps G0 G s2 s3 fuel h1
+      obtain ⟨L, l1, l2, l3⟩ := C13_programs G c1 c2 c3 fuel' n hp
+      exact ⟨L, l1, l2, fun t => by rw [l3 t, hlang t]⟩
+    | fuel => simp [h1] at h
+    | keyError => simp [h1] at h
+
+open Ex in
+/-- non-vacuity, and the repair at work on the witness of C13-F5 (f : a → b → c, b uninhabited):
+    the cleaned table keeps the rule `f`, `programs()` as it is reports 2, repaired 1 = |{k}| -/
+example : noUnknownDsl unin c = true ∧ wfDsl unin = true ∧
+    onTable (sizeConstraint unin c 4 2 true true 1000) (fun G =>
+      rowsNodup G && noUnknownKey G && noUnknownArg G &&
+      programs G 20 == some 2 && programsR G 20 == some 1 && (langOf G 20).length == 1) = true := by decide +kernel
+
+/-! ### where `clean()` falls short (C13-F5, second half) and why removing rules cannot repair it -/
+
+/-- **criterion**: if the derivation machine of `G` can follow a sequence of symbols from the start
+    configuration, using only rules that derivations of programs of `G` use, into a configuration
+    whose next non-terminal has no rule in `G`, then EVERY table made of rules of `G` with the
+    language of `G` has a derivation that can be started and cannot be completed. -/
+theorem C13_no_repair_by_removal {S T : Type} [DecidableEq S] [DecidableEq T] (G G' : TT S T) (hstart : G'.start = G.start)
+    (hsub : ∀ nt P val, G'.rule? nt P = some val → G.rule? nt P = some val)
+    (hlang : ∀ t, PS.G.contains G' t = PS.G.contains G t)
+    (ts : List Prog) (hts : ∀ t ∈ ts, PS.G.contains G t = true) (syms : List Sym)
+    (a : Ty × S) (stk : List (Ty × S)) (v : T) (rs : List (NT S T × Sym))
+    (hw : walk G.rule? syms ([(G.start.1, G.start.2.1)], G.start.2.2) = some ((a :: stk, v), rs))
+    (hcover : ∀ x ∈ rs, ∃ t ∈ ts, x ∈ used G.rule? t (G.start.1, G.start.2.1) G.start.2.2)
+    (hdead : inRules G (a.1, (a.2, v)) = false) :
+    ∃ c, Steps G' ([(G'.start.1, G'.start.2.1)], G'.start.2.2) c ∧ ¬ ∃ w, Steps G' c ([], w) :=
+  no_repair_of_witness G G' hstart hsub (fun t => by rw [← C13_contains_run, ← C13_contains_run]; exact hlang t)
+    ts (fun t ht => by rw [← C13_contains_run]; exact hts t ht) syms a stk v rs hw hcover hdead
+
+namespace Ex
+namespace Sh
+def m : Ty := .base "m"
+def c1 : Ty := .base "c1"
+def c2 : Ty := .base "c2"
+def q : Ty := .base "q"
+def r : Ty := .base "r"
+def k1 : Sym := Sym.prim "k1" (fn [m, c1] r)
+def k2 : Sym := Sym.prim "k2" (fn [m, c2] r)
+def ff : Sym := Sym.prim "f" (fn [a, b] m)
+def xx : Sym := Sym.prim "x" a
+def hh : Sym := Sym.prim "h" (fn [a] a)
+def yy : Sym := Sym.prim "y" b
+def pp : Sym := Sym.prim "p" c1
+def g2 : Sym := Sym.prim "g2" (fn [q, q] c2)
+def q0 : Sym := Sym.prim "q0" q
+/-- k1 : m → c1 → r, k2 : m → c2 → r, f : a → b → m, x : a, h : a → a, y : b, p : c1, g2 : q → q → c2, q0 : q -/
+def dsl : Dsl := ⟨[k1, k2, ff, xx, hh, yy, pp, g2, q0], []⟩
+def p1 : Prog := .node k1 [.node ff [.node hh [leaf xx], leaf yy], leaf pp]            -- (k1 (f (h x) y) p), 6 nodes
+def p2 : Prog := .node k2 [.node ff [leaf xx, leaf yy], .node g2 [leaf q0, leaf q0]]    -- (k2 (f x y) (g2 q0 q0)), 7 nodes
+/-- the grammar `size_constraint(dsl, r, 7)` as the model builds it (code as it is now) -/
+def G : TT Ctx (Nat × Nat) := (tableOf (sizeConstraint dsl r 7 2 true true 3000)).getD ⟨(r, ([], (0, 0))), []⟩
+end Sh
+end Ex
+
+open Ex Ex.Sh in
+/-- **finding C13-F5, the part that no rule removal can repair.**  In `size_constraint(dsl, r, 7)`
+    the non-terminal `(a, (f,0), (2,3))` of the first argument of `f` is shared by the derivations
+    under `k1` and under `k2`.  Its rule `h` is needed by `(k1 (f (h x) y) p)`, but after
+    `k2, f, h, x, y` the second argument of `k2` (the only term of type c2 has 3 nodes) no longer
+    fits: the non-terminal `(c2, (k2,1), (5,1))` has no rule.  Hence EVERY table made of rules of
+    this grammar that has its language - whatever `clean()` is replaced by - has a derivation that
+    can be started and cannot be completed.  (`programs()` as it is counts 6, repaired 4 = the
+    size of the language.) -/
+theorem finding_C13_F5_no_repair :
+    (programs G 30 = some 6 ∧ programsR G 30 = some 4 ∧ (langOf G 30).length = 4) ∧
+    ∀ G' : TT Ctx (Nat × Nat), G'.start = G.start →
+      (∀ nt P val, G'.rule? nt P = some val → G.rule? nt P = some val) →
+      (∀ t, PS.G.contains G' t = PS.G.contains G t) →
+      ∃ c, Steps G' ([(G'.start.1, G'.start.2.1)], G'.start.2.2) c ∧ ¬ ∃ w, Steps G' c ([], w) := by
+  refine ⟨by decide +kernel, ?_⟩
+  intro G' hstart hsub hlang
+  have h1 : (walk G.rule? [k2, ff, hh, xx, yy] ([(G.start.1, G.start.2.1)], G.start.2.2)).map (·.1) =
+      some ([(c2, [(k2, 1)])], (5, 1)) := by decide +kernel
+  have h2 : ((walk G.rule? [k2, ff, hh, xx, yy] ([(G.start.1, G.start.2.1)], G.start.2.2)).elim [] (·.2)).all (fun x =>
+      [p1, p2].any (fun t => (used G.rule? t (G.start.1, G.start.2.1) G.start.2.2).contains x)) = true := by decide +kernel
+  cases hW : walk G.rule? [k2, ff, hh, xx, yy] ([(G.start.1, G.start.2.1)], G.start.2.2) with
+  | none => rw [hW] at h1; cases h1
+  | some res =>
+    obtain ⟨d, rs⟩ := res
+    rw [hW] at h1 h2
+    simp only [Option.map_some, Option.some.injEq] at h1
+    subst h1
+    simp only [Option.elim_some] at h2
+    refine C13_no_repair_by_removal G G' hstart hsub hlang [p1, p2] ?_ [k2, ff, hh, xx, yy] (c2, [(k2, 1)]) [] (5, 1) rs hW ?_ ?_
+    · have : ([p1, p2].all fun t => PS.G.contains G t) = true := by decide +kernel
+      intro t ht
+      exact List.all_eq_true.mp this t ht
+    · intro x hx
+      have h3 := List.all_eq_true.mp h2 x hx
+      rw [List.any_eq_true] at h3
+      obtain ⟨t, ht, hc⟩ := h3
+      exact ⟨t, ht, by simpa using hc⟩
+    · decide +kernel
+
+/-- **what `clean()` removes**: the table returned is the original one restricted to a set of marks
+    such that (1) a non-terminal of a configuration reachable from the start symbol that lost its
+    row is DEAD (no program is derivable from it in the original table), (2) a rule that was removed
+    from a kept non-terminal has a dead FIRST argument, (3) no non-terminal is invented. -/
+theorem C13_clean_removes_only_dead {S T : Type} [DecidableEq S] [DecidableEq T] (G G' : TT S T)
+    (hU : noUnknownKey G = true) (fuel : Nat) (h : clean G fuel = .ok G') :
+    ∃ nr : Marks S T, G' = restrict G nr ∧
+      (∀ c, Reach0 G c → AList.contains c.1 nr = true ∨ Dead G c.1) ∧
+      (∀ rule l, AList.lookup rule nr = some l → ∀ P args st, G.rule? rule P = some (args, st) →
+        P ∈ l ∨ ∃ a as, args = a :: as ∧ Dead G (a.1, (a.2, st))) ∧
+      (∀ rule, AList.contains rule nr = true → inRules G rule = true) := by
+  obtain ⟨nr, e, hinv⟩ := clean_result G G' hU fuel h
+  exact ⟨nr, e, hinv.reach, hinv.kept, hinv.sub⟩
+
+/-- **what `clean()` guarantees about its result**: the table returned is the original one
+    restricted to a set of marks (kept symbols per kept non-terminal) such that at EVERY
+    configuration (non-terminal, pending stack) that the machine of the kept rules reaches from the
+    start symbol, if the non-terminal is kept then
+      (1) its kept row is not empty, and
+      (2) every kept rule that takes arguments has the non-terminal of its FIRST argument kept,
+          provided it was a non-terminal of the original table.
+    So a derivation can always be continued downwards along first arguments to a leaf; it can get
+    stuck only after a complete sub-term, at the non-terminal of a LATER argument - which is
+    exactly finding C13-F5, and `finding_C13_F5_no_repair` shows that this cannot be avoided by
+    removing rules. -/
+theorem C13_clean_first {S T : Type} [DecidableEq S] [DecidableEq T] (G G' : TT S T) (hU : noUnknownKey G = true)
+    (fuel : Nat) (h : clean G fuel = .ok G') :
+    ∃ nr : Marks S T, G' = restrict G nr ∧
+      ∀ c, VSteps G nr (G.start, []) c → ∀ l, AList.lookup c.1 nr = some l →
+        l ≠ [] ∧
+        ∀ P ∈ l, ∀ (a : Ty × S) (as : List (Ty × S)) (st : T), G.rule? c.1 P = some (a :: as, st) →
+          inRules G (a.1, (a.2, st)) = true → AList.contains (a.1, (a.2, st)) nr = true := by
+  obtain ⟨nr, e, _, hg⟩ := clean_first G G' hU fuel h
+  refine ⟨nr, e, ?_⟩
+  intro c hc l hl
+  exact ⟨((hg c hc) l hl).1, fun P hP a as st hr hin => goodC_first G nr c (hg c hc) l hl P hP a as st hr hin⟩
+
+open Ex in
+/-- non-vacuity: `clean` returns on the saturation table of the witness of C13-F5 and keeps the
+    rule `f` (its first argument `a` is inhabited) although its second argument is not -/
+example : (match saturationTable (sizeBuilder unin 2 4 true) unin.prims c true 1000 with
+    | some G0 => noUnknownKey G0 && (match clean G0 1000 with
+        | .ok G' => (G'.rule? (c, ([], (0, 0))) f).isSome && AList.contains ((a, ([(f, 0)], (1, 2))) : NT Ctx (Nat × Nat)) G'.rules &&
+                    !(AList.contains ((b, ([(f, 1)], (2, 1))) : NT Ctx (Nat × Nat)) G'.rules)
+        | _ => false)
+    | none => false) = true := by decide +kernel
+
+/-- **the table of `__saturation_build__` contains no junk**: every non-terminal with a row is the
+    non-terminal of a configuration (non-terminal, pending stack) reachable from the start
+    configuration by the pushes of the loop - either de-duplication, every builder, DSL, request,
+    fuel.  With `C13_saturation_closed`: the keys are exactly the reachable non-terminals. -/
+theorem C13_saturation_exact {S T : Type} [DecidableEq S] [DecidableEq T] (B : Builder S T) (prims : List Sym)
+    (request : Ty) (stackKey : Bool) (fuel : Nat) (G : TT S T) (h : saturationTable B prims request stackKey fuel = some G) :
+    ∀ k, AList.contains k G.rules = true → ∃ stack, SReach B prims request (k, stack) :=
+  saturation_exact B prims request stackKey fuel G h
+
+open Ex in
+/-- non-vacuity: the table of {+, 1} / int / 3 nodes has the three non-terminals S0, A, B and two more
+    that `clean` removes later -/
+example : ((saturationTable (sizeBuilder small 2 3 true) small.prims int true 100).map (fun G =>
+    AList.contains S0 G.rules && AList.contains A G.rules && AList.contains B G.rules)) = some true := by decide +kernel
 
 end PS.T
